@@ -6,6 +6,7 @@
 //! contains no oracle of its own: it projects state and compares for equality
 //! with values TLC produced.
 mod core;
+mod func;
 mod lock;
 mod util;
 mod walring;
@@ -22,6 +23,8 @@ fn main() {
         "walring-trace" => walring::trace(rest),
         "core-run" => core::run(rest),
         "lock-run" => lock::run(rest),
+        "func-run" => func::run(rest),
+        "func-query-one" => func::query_one(rest),
         "lock-probe" => lock::probe_cmd(rest),
         other => {
             eprintln!("unknown subcommand {other}");
